@@ -4,11 +4,13 @@ import json, os, shutil, subprocess, sys, tempfile
 from concurrent.futures import ThreadPoolExecutor
 sys.path.insert(0, os.path.dirname(os.path.abspath(__file__)))
 import mutscan
-rep = json.load(open("/tmp/mutscan/report.json"))
+OPS = int(os.environ.get("MUT_OPS", "1"))
+DIR = "/tmp/mutscan2" if OPS == 2 else "/tmp/mutscan"
+rep = json.load(open(DIR + "/report.json"))
 ms = []
 for f in mutscan.FILES:
-    ms += mutscan.mutants_of(f, open(os.path.join("/repo", f), encoding="utf-8").read())
-surv = [r for r in rep if r.get("survived_suite")]
+    ms += (mutscan.mutants_of2 if OPS == 2 else mutscan.mutants_of)(f, open(os.path.join("/repo", f), encoding="utf-8").read())
+surv = [r for r in rep if r.get("survived_suite") and (not os.environ.get("MUT_ONLY_SILENT") or not r.get("caught_by"))]
 checks = ["C%02d" % i for i in range(1, 21)]
 def one(r):
     m = ms[r["id"]]
@@ -32,5 +34,5 @@ def one(r):
         shutil.rmtree(tmp, ignore_errors=True)
 with ThreadPoolExecutor(max_workers=int(sys.argv[1]) if len(sys.argv) > 1 else 14) as ex:
     out = list(ex.map(one, surv))
-json.dump(out, open("/tmp/mutscan/rescan.json", "w"), indent=1)
+json.dump(out, open(DIR + "/rescan.json", "w"), indent=1)
 print(f"survivors {len(out)}; reported {len([r for r in out if r['caught_by']])}; silent {len([r for r in out if not r['caught_by'] and not r['analysis_error_in']])}; only exit 2: {len([r for r in out if not r['caught_by'] and r['analysis_error_in']])}")
